@@ -284,6 +284,13 @@ pub fn parent(spec: &'static CheckSpec, opts: ParentOpts) -> i32 {
                 "worker_processes": w,
                 "known_finding_hits": known_hits.iter().map(|(k, n)| json!({"finding": known.get(*k).map(|k| k.what.clone()), "runs": n})).collect::<Vec<_>>(),
                 "replays": replay_paths,
+                "enumerated_subspace": spec.enumerated.map(|(name, cases)| {
+                    let executed = per_scenario.get(name).copied().unwrap_or(0);
+                    // thorough: case = (scenario run index) mod cases, so `cases` consecutive runs cover it;
+                    // quick (C02): a fixed-stride sample
+                    let complete = executed >= cases && (opts.tier == Tier::Thorough || spec.id == "C03");
+                    json!({"scenario": name, "cases": cases, "runs_of_scenario": executed, "every_case_executed": complete})
+                }),
             },
             "assumptions": spec.assumptions,
             "wall_s": wall,
